@@ -316,3 +316,44 @@ func VerifC01_CommitOrder() {
 	}
 	zz.Reach("end")
 }
+
+// VerifC10_NestedWriteSurvivesCommit: inside one Ethereum transaction a precompile first flushes the StateDB (Commit) and
+// then runs Cosmos-side code that may itself execute the EVM on the same stores - the ICS-20 precompile reaching the
+// automatic ERC20 -> coin conversion debits the token's balance and supply slots that way. A slot the outer execution had
+// written before the flush, and does not write again afterwards, must end the transaction with the value the nested
+// execution left in the store: the final Commit may not write the stale cached value back over it.
+func VerifC10_NestedWriteSurvivesCommit() {
+	l := newLedger()
+	a := sAddrs[0]
+	l.acct[a] = &Account{Balance: new(big.Int), CodeHash: emptyCodeHash}
+	val := func(tag string) common.Hash { return common.BigToHash(big.NewInt(int64(zz.Choose(tag, 4)))) }
+	v0, v1, v2 := val("stored"), val("writtenBeforeFlush"), val("writtenByNestedExecution")
+	k, other := sKeys[0], sKeys[1]
+	l.storage[a] = map[common.Hash]common.Hash{k: v0}
+	db := New(sdk.Context{}, l, NewEmptyTxConfig(common.Hash{}))
+	db.SetState(a, k, v1) // e.g. token.burn(1) by the calling contract
+	if err := db.Commit(); err != nil { // the precompile's leading flush
+		panic(err)
+	}
+	zz.Assert(l.storage[a][k] == v1, "the flush writes the slot")
+	l.SetState(sdk.Context{}, a, k, v2.Bytes()) // the nested conversion writes the same slot through the keeper
+	if zz.AnyBool("outerWritesAnotherSlotAfterwards") {
+		db.SetState(a, other, val("otherSlot"))
+	}
+	rewrites := zz.AnyBool("outerWritesTheSlotAgain")
+	v3 := val("writtenAfterwards")
+	if rewrites {
+		db.SetState(a, k, v3)
+	}
+	if err := db.Commit(); err != nil { // end of the transaction
+		panic(err)
+	}
+	if rewrites && v3 != v1 {
+		zz.Assert(l.storage[a][k] == v3, "a later write of the outer execution wins")
+		zz.Reach("?rewritten")
+	} else if !rewrites {
+		zz.Assert(l.storage[a][k] == v2, "a slot flushed mid-transaction and not written again keeps the value the nested execution left in the store")
+		zz.Reach("kept")
+	}
+	zz.Reach("end")
+}
